@@ -131,6 +131,39 @@ def fam_stacks(tier: str, rng: random.Random) -> Iterator[dict]:
             yield {"hid": 0, "tag": "stack", "names": ["f", "g"], "con": b.con, "cls": cls, "posthoc": []}
 
 
+def fam_abstract(tier: str, rng: random.Random) -> Iterator[dict]:
+    """C04: hierarchies in which a class in the MIDDLE of a chain re-declares a member abstract (with or without contracts
+    of its own) and a class below implements it: abstractness changes nothing about the contracts that are inherited."""
+    import json as _json
+    n = 0
+    for h in fam_hier(tier, rng):
+        cls = h["cls"]
+        if len(cls) < 3 or h.get("posthoc"):
+            continue
+        marks = []
+        for k, st in enumerate(cls, 1):
+            if not st["bases"] or not st["dbc"]:
+                continue
+            for mi, m in enumerate(st["members"]):
+                if m["kind"] not in ("fn", "prop"):
+                    continue
+                # some class below (k in its MRO) defines the member again
+                if any(k in cls[j - 1]["mro"] and j != k and any(mm["name"] == m["name"] and mm["kind"] == m["kind"]
+                                                                  for mm in cls[j - 1]["members"])
+                       for j in range(k + 1, len(cls) + 1)):
+                    marks.append((k, mi))
+        if not marks:
+            continue
+        q = _json.loads(_json.dumps(h))
+        for k, mi in marks:
+            q["cls"][k - 1]["members"][mi]["abstract"] = True
+        q["tag"] = h["tag"] + "-abstract"
+        n += 1
+        yield q
+        if n >= (400 if tier == "quick" else 4000):
+            return
+
+
 def number(hists: Any) -> List[dict]:
     out = []
     for i, h in enumerate(hists, 1):
